@@ -93,6 +93,35 @@ using SimSbx = rlbox::rlbox_sim_sandbox;
 using NoopSbx = rlbox::rlbox_noop_sandbox;
 using DylibSbx = rlbox::rlbox_dylib_sandbox;
 
+// ---- std::mutex inside the library (rlbox_sandbox::callback_lock) is a scheduling point like the shared locks: every
+// pthread_mutex_lock / unlock made from this program's own code goes through the scheduler's lock model first
+// (-Wl,--wrap; the C++ runtime's internal mutexes are not affected, the scheduler itself uses raw futexes) ----
+#include <pthread.h>
+extern "C" int __real_pthread_mutex_lock(pthread_mutex_t*);
+extern "C" int __real_pthread_mutex_unlock(pthread_mutex_t*);
+namespace {
+thread_local bool t_in_mutex_wrap = false;
+}
+extern "C" int __wrap_pthread_mutex_lock(pthread_mutex_t* m)
+{
+  if (simsched::current_tid() >= 0 && !t_in_mutex_wrap) {
+    t_in_mutex_wrap = true;
+    simsched::mutex_acquire(m);
+    t_in_mutex_wrap = false;
+  }
+  return __real_pthread_mutex_lock(m);
+}
+extern "C" int __wrap_pthread_mutex_unlock(pthread_mutex_t* m)
+{
+  int r = __real_pthread_mutex_unlock(m);
+  if (simsched::current_tid() >= 0 && !t_in_mutex_wrap) {
+    t_in_mutex_wrap = true;
+    simsched::mutex_release(m);
+    t_in_mutex_wrap = false;
+  }
+  return r;
+}
+
 // ---- ThreadSanitizer report hook (never called in the plain build) ----
 static std::atomic<int> g_tsan_reports{ 0 };
 extern "C" void __tsan_on_report(void*)
